@@ -178,6 +178,22 @@ class CurProc(plumpy.Process):
                 sample(self, 'step', 'seg%d:after-collect' % i)
                 await asyncio.sleep(0)
                 sample(self, 'step', 'seg%d:after-collect-await' % i)
+            elif kind == 'leak_cb':
+                # a coroutine callback of THIS process that blocks on something nobody else refers to: callback task, coroutine and
+                # future are garbage, collected while a step of the same process is running -- the callback's scope is closed
+                # here, in this step's context, and must not take this step's scope with it
+                async def leaked(loop=self.loop):
+                    await loop.create_future()
+
+                self.call_soon(leaked)
+                del leaked
+                for _ in range(3):
+                    await asyncio.sleep(0)
+                import gc
+                gc.collect()
+                sample(self, 'step', 'seg%d:after-collect-own' % i)
+                await asyncio.sleep(0)
+                sample(self, 'step', 'seg%d:after-collect-own-await' % i)
             elif kind == 'await_children':
                 for child in self.kids:
                     if not child.has_terminated():
